@@ -81,6 +81,10 @@ func (p *Provider) start(ctx context.Context, ammoFile afero.File) error {
 		if err != nil {
 			return errors.Wrap(err, "gPRC Provider scan() err")
 		}
+		if ammoNum == 0 {
+			// nothing was delivered by a whole pass: the next pass would not deliver anything either
+			return errors.New("no ammo in file")
+		}
 		if p.Limit != 0 && ammoNum >= p.Limit {
 			break
 		}
